@@ -98,6 +98,38 @@ def check_code(code):
             raise V("B-succ", f"successors of {b.name} (ends in {li.opname}@{li.offset}) are {b._jump_targets}, the instruction allows {tuple(exp)} (fall-through first, then jump target)")
         if b.backedges:
             raise V("B-backedge", f"fresh bytecode graph declares back edges on {b.name}")
+    # every instruction exactly once, through the library's own block -> instructions API
+    bcmap = {i.offset: i for i in dis.get_instructions(code)}
+    got = []
+    for b in blocks:
+        try:
+            bi = b.get_instructions(bcmap)
+        except Exception as e:
+            raise V(f"B-insts-raise:{type(e).__name__}", f"get_instructions of {b.name} raised {type(e).__name__}: {e}")
+        got.extend((i.offset, i.opname) for i in bi)
+    want = [(i.offset, i.opname) for i in ins]
+    if got != want:
+        miss = [x for x in want if x not in set(got)][:3]
+        extra = [x for x in got if x not in set(want)][:3]
+        raise V("B-insts", f"blocks' get_instructions() enumerate {len(got)} instructions, the code has {len(want)}; missing {miss} extra/duplicated {extra}")
+    # state carried between builds: a second build of the same function is again the fresh bytecode graph,
+    # also when the first result was restructured in place meanwhile
+    snap = [(b.name, type(b).__name__, b.begin, b.end, tuple(b._jump_targets), tuple(b.backedges)) for b in blocks]
+    if len(blocks) <= 40:
+        try:
+            bf.scfg.restructure()
+        except Exception:
+            pass  # C02's business
+    try:
+        bf2 = ByteFlow.from_bytecode(code)
+    except Exception as e:
+        raise V(f"B-rebuild-raise:{type(e).__name__}", f"second from_bytecode raised {type(e).__name__}: {e}")
+    snap2 = []
+    for b in sorted(bf2.scfg.graph.values(), key=lambda b: (getattr(b, "begin", -1), b.name)):
+        snap2.append((b.name, type(b).__name__, getattr(b, "begin", None), getattr(b, "end", None), tuple(b._jump_targets), tuple(b.backedges)))
+    if snap2 != snap:
+        d = [x for x in snap2 if x not in snap][:2]
+        raise V("B-rebuild", f"building the graph of the same function again gives a different graph (e.g. {d}); first build had {len(snap)} blocks, second {len(snap2)}")
     ops = {i.opname for i in ins if i.opcode in bm.JUMPS or i.opname in bm.RETURNS}
     return dict(blocks=len(blocks), cond=sum(1 for i in ins if i.opcode in bm.JUMPS and i.opname not in bm.NOFALL), ops=ops)
 
